@@ -44,3 +44,6 @@ func HookVal(dst Dst, src Src)                {}
 func HookVariadic(dst *Dst, src *Src, xs ...int) {}
 
 func (s *Src) NameErr() (string, error) { return s.Name, nil }
+
+// OnHand is a comma-ok accessor, not an error-returning getter.
+func (s *Src) OnHand() (string, bool) { return s.Name, true }
